@@ -63,6 +63,9 @@ SECTS = [
     ('\\text{ for } z,', [('t', ' for '), ('m', None, True, ',')]),      # needs amsmath
     ('= f. \\tag{1}', [('m', '=', True, '.')]),                          # amsmath
     ('g, \\tag*{$\\ast$}', [('m', None, True, ',')]),                    # amsmath
+    # delimiters: the full stop of \right. is no punctuation mark
+    ('= \\left\\{ h \\right.', [('m', '=', True, '')]),
+    ('\\left. k \\right|,', [('m', None, True, ',')]),
 ]
 NSYM = 24        # the kinds from here on need amsmath: used in fixed documents only
 
@@ -261,6 +264,9 @@ OFFDOCS = {
     'simple': ('align', 'amsmath', [[0, 1], [0, 5]], 'ru', True),
     'tag': ('align', 'amsmath', [[0, 25], [26]], 'en', False),
     'tag_simple': ('equation', 'amsmath', [[26]], 'de', True),
+    'delimiters': ('equation', None, [[0, 27]], 'en', False),
+    'delimiters_rows': ('eqnarray', None, [[0, 27], [28]], 'de', False),
+    'delimiters_simple': ('BRACKET', None, [[0, 27]], 'en', True),
     'gather3': ('gather', 'amsmath', [[6], [14], [16]], 'en', False),
 }
 
